@@ -26,10 +26,17 @@ CHECKS = {
         text="Seeded search over histories of public Model edits (all single and batch mutators, ~25% deliberately rejected, poisoned functions that kill a query while the memo is being built, dangling/cyclic content) interleaved with queries; after every op the edited model must refine a model freshly rebuilt from its own content (same op outcome, same content, same ids, same query answers), a refused edit must change nothing, names must stay disjoint and re-usable. Sampling, not proof; ~2M histories/hour.",
         note="Trusted: rebuild through public add_* from get_raw_* copies is 'a freshly built model with the same content'; Model._data read directly (no public getter). Cannot see wrong evaluation that a fresh model shares (C01/C02/C13).",
     ),
+    "C19": dict(
+        engine="crash", category="fault_enumeration", design_ref="DESIGN.md §4.6",
+        technique="deterministic simulation with crash injection: forked process incarnations killed at every traced line of mxlpy/parallel.py and at byte offsets of every result file (torn writes), reruns compared with a cache-free reference",
+        text="For seeded workloads (parallelise with a logging function, scan.time_course, scan.steady_state; int/str/tuple keys; results 0..70 kB; sequential or simulated pool) the histories 'no cache -> run killed at p [-> killed again] -> rerun -> rerun' are executed for EVERY line-level kill point inside mxlpy/parallel.py (exhaustive per workload), sampled kill points in all mxlpy frames, and byte-granular torn writes of every result file (whole process or single worker dies). Rerun must complete and equal the cache-free reference for every key; a further run must recompute nothing; an uninterrupted cached run must equal the reference.",
+        note="Process-kill semantics only (what reached the OS survives; no power-loss reordering). C-level writes inside pickle.dump are interrupted only through the path seam. In-process SimPool: one task is in flight at a time, several simultaneously torn files are approximated by double-crash histories.",
+    ),
 }
 
 ENGINES = [
     {"name": "simkit", "path": "simkit/", "serves_properties": sorted(CHECKS), "kind_free_text": "seeded scheduler core: labelled PRNG streams, fork-based runner with watchdog, trace digests, ddmin shrinker, replay files, known-finding matching, evidence writer"},
+    {"name": "crash", "path": "simkit/machines/crash.py", "serves_properties": ["C19"], "kind_free_text": "crash-history machine: fork+settrace kill points, CrashPath torn writes (simkit/crashfs.py), SimPool (simkit/simpool.py)"},
     {"name": "edits", "path": "simkit/machines/edits.py", "serves_properties": ["C03"], "kind_free_text": "edit-history machine: online op generator, snapshot/rebuild refinement oracle"},
 ]
 
